@@ -3,8 +3,10 @@ package c05
 
 import (
 	"bytes"
+	"compress/gzip"
 	"crypto/sha1"
 	"fmt"
+	"io"
 	"os"
 	"path/filepath"
 	"strings"
@@ -80,6 +82,8 @@ func jobs() []job {
 		{name: "obiconvert:fasta-to-fastq", bin: "obiconvert", setup: fa, args: with("in.fasta", "--fastq-output")},
 		{name: "obiconvert:fastq-to-fasta", bin: "obiconvert", setup: fq, args: with("in.fastq", "--fasta-output")},
 		{name: "obiconvert:fastq-json", bin: "obiconvert", setup: fq, args: with("in.fastq", "--json-output")},
+		{name: "obiconvert:fasta-gz", bin: "obiconvert", setup: fa, args: with("in.fasta", "-Z")},
+		{name: "obiconvert:fastq-gz", bin: "obiconvert", setup: fq, args: with("in.fastq", "--fastq-output", "--compress")},
 		{name: "obigrep:length", bin: "obigrep", setup: fa, args: with("in.fasta", "-l", "60", "-L", "150")},
 		{name: "obigrep:predicate", bin: "obigrep", setup: fq, args: with("in.fastq", "-p", "annotations.count >= 4", "-a", "sample=s[123]")},
 		{name: "obiannotate:length", bin: "obiannotate", setup: fa, args: with("in.fasta", "--length", "-S", "double=annotations.count*2")},
@@ -251,10 +255,26 @@ func runMatrix(c *core.Ctx, race bool) {
 			c.Key("%s/%d/%d/%d/%v/%d", j.name, n, k.cpu, k.batch, k.yield != "", k.gomax)
 		}
 		digests[digest(res.Stdout)] = true
-		if bytes.IndexByte(res.Stdout, 0xDB) >= 0 {
+		// the poison byte is looked for in the text of the result: a compressed result is inflated first
+		// (0xDB is an ordinary byte of a deflate stream)
+		plain := res.Stdout
+		if strings.HasSuffix(j.name, "-gz") && len(res.Stdout) > 0 { // (a result without any record is written as 0 bytes)
+			if zr, err := gzip.NewReader(bytes.NewReader(res.Stdout)); err == nil {
+				if b, err := io.ReadAll(zr); err == nil {
+					plain = b
+				} else {
+					c.Violate("gzip-invalid:"+j.name, "the compressed result does not decompress", det(k, res))
+					continue
+				}
+			} else {
+				c.Violate("gzip-invalid:"+j.name, "the compressed result does not decompress", det(k, res))
+				continue
+			}
+		}
+		if bytes.IndexByte(plain, 0xDB) >= 0 {
 			d := det(k, res)
-			p := bytes.IndexByte(res.Stdout, 0xDB)
-			d["context"] = around(res.Stdout, p)
+			p := bytes.IndexByte(plain, 0xDB)
+			d["context"] = around(plain, p)
 			c.Violate("poison:"+j.name, "a byte of a recycled (poisoned) buffer reaches the output", d)
 			continue
 		}
